@@ -30,6 +30,30 @@
 
 #include "seq_common.h"
 
+// buildGroupsFromCacheTopology calls std::thread::hardware_concurrency() on every call (only to size a lookup
+// vector); with this glibc that is get_nprocs(), which opens and reads /sys/devices/system/cpu/online each time
+// (3 syscalls, ~300us per case with 8 threads contending on sysfs; measured 680k openat calls in the quick tier).
+// Interpose get_nprocs in this executable with a version that asks the real one once and caches the answer: same
+// value, dispenso code untouched.
+#include <dlfcn.h>
+extern "C" int get_nprocs(void) {
+  static const int cached = [] {
+    typedef int (*Fn)(void);
+    Fn real = (Fn)dlsym(RTLD_NEXT, "get_nprocs");
+    int v = real ? real() : 0;
+    return v > 0 ? v : 1;
+  }();
+  return cached;
+}
+
+// ASan's default 256 MB quarantine makes this allocation-heavy, 8-thread enumeration spend most of its time in page
+// faults on ever-fresh memory (measured: 134 s sys / 90 s wall vs 17 s sys / 21 s wall for the quick tier). Every case
+// allocates < 2 KB and frees it before the next case, so an 8 MB quarantine still holds thousands of cases' worth of
+// freed blocks: use-after-free / double-free detection for the code under test is unaffected. ASAN_OPTIONS overrides.
+extern "C" __attribute__((no_sanitize("address"), used, visibility("default"))) const char* __asan_default_options() {
+  return "quarantine_size_mb=8:thread_local_quarantine_size_kb=64";
+}
+
 using dispenso::CacheGroup;
 using dispenso::CpuSet;
 using dispenso::ThreadGroup;
@@ -80,8 +104,9 @@ static void runChunks(size_t n, F f) {
   std::atomic<size_t> next{0};
   auto worker = [&] {
     for (;;) {
-      size_t i = next++;
-      if (i >= n) break;
+      size_t j = next++;
+      if (j >= n) break;
+      size_t i = n - 1 - j; // chunks are listed simplest-first and executed biggest-first (load balance)
       f(i, res[i]);
     }
   };
@@ -366,30 +391,30 @@ static bool overSmallAlphabet(const std::string& s) {
   return true;
 }
 static void parserStrings(int maxLen) {
-  // chunk 64: lengths 0 and 1; chunk p<64: all strings of length 2..maxLen starting with the p-th 2-char prefix
-  runChunks(65, [&](size_t ci, Chunk& c) {
-    if (ci == 64) {
+  // chunk 0: lengths 0 and 1; then for len = 2..maxLen, 64 chunks (one per 2-char prefix): shortest failing string first
+  size_t nChunks = 1 + (maxLen >= 2 ? (size_t)(maxLen - 1) * 64 : 0);
+  runChunks(nChunks, [&](size_t ci, Chunk& c) {
+    if (ci == 0) {
       checkParse("", c, 0xB1);
       for (char a : kAlpha) checkParse(std::string(1, a), c, 0xB1);
       return;
     }
-    std::string pre;
-    pre += kAlpha[ci / 8];
-    pre += kAlpha[ci % 8];
-    for (int len = 2; len <= maxLen; len++) {
-      int rest = len - 2;
-      uint64_t total = 1;
-      for (int i = 0; i < rest; i++) total *= 8;
-      std::string s = pre + std::string((size_t)rest, '0');
-      for (uint64_t x = 0; x < total; x++) {
-        uint64_t y = x;
-        for (int i = rest - 1; i >= 0; i--) {
-          s[(size_t)(2 + i)] = kAlpha[y & 7];
-          y >>= 3;
-        }
-        checkParse(s, c, 0xB1);
-        if (ci == 4 && len == 5 && x == 8 && c.samples.empty()) c.samples.push_back("{\"parse\":\"" + seq::Report::esc(s) + "\"}");
+    int len = 2 + (int)((ci - 1) / 64);
+    size_t pi = (ci - 1) % 64;
+    int rest = len - 2;
+    uint64_t total = 1;
+    for (int i = 0; i < rest; i++) total *= 8;
+    std::string s(2 + (size_t)rest, '0');
+    s[0] = kAlpha[pi / 8];
+    s[1] = kAlpha[pi % 8];
+    for (uint64_t x = 0; x < total; x++) {
+      uint64_t y = x;
+      for (int i = rest - 1; i >= 0; i--) {
+        s[(size_t)(2 + i)] = kAlpha[y & 7];
+        y >>= 3;
       }
+      checkParse(s, c, 0xB1);
+      if (pi == 4 && len == 5 && x == 8 && c.samples.empty()) c.samples.push_back("{\"parse\":\"" + seq::Report::esc(s) + "\"}");
     }
   });
 }
@@ -403,20 +428,24 @@ static void parserLists(int maxLen) {
   for (int64_t lo : nn)
     for (int64_t hi : nn)
       if (lo > hi) items.push_back(std::to_string(lo) + "-" + std::to_string(hi));
-  runChunks(items.size(), [&](size_t ci, Chunk& c) {
+  // chunk 0: all 1-item lists; chunk 1+i: all 2-item then all 3-item lists starting with item i (shortest failing list first)
+  runChunks(items.size() + 1, [&](size_t cj, Chunk& c) {
     auto one = [&](const std::string& body) {
       for (int nl = 0; nl < 2; nl++) {
         std::string s = nl ? body + "\n" : body;
         if ((int)s.size() <= maxLen && overSmallAlphabet(s)) continue; // already enumerated by parserStrings
         checkParse(s, c, 0xB2);
-        if (ci == 10 && c.samples.empty() && s.size() > 12) c.samples.push_back("{\"parse\":\"" + seq::Report::esc(s) + "\"}");
+        if (cj == 11 && c.samples.empty() && s.size() > 12) c.samples.push_back("{\"parse\":\"" + seq::Report::esc(s) + "\"}");
       }
     };
-    one(items[ci]);
-    for (auto& b : items) {
-      one(items[ci] + "," + b);
-      for (auto& d : items) one(items[ci] + "," + b + "," + d);
+    if (cj == 0) {
+      for (auto& a : items) one(a);
+      return;
     }
+    const std::string& a = items[cj - 1];
+    for (auto& b : items) one(a + "," + b);
+    for (auto& b : items)
+      for (auto& d : items) one(a + "," + b + "," + d);
   });
 }
 
@@ -461,61 +490,75 @@ static void checkTopo(const Topo& t, Chunk& c, bool verbose = false) {
   }
   std::vector<ThreadGroup> out = dispenso::detail::buildGroupsFromCacheTopology(l2, l3, t.maxg);
   c.evals++;
-  std::string replay = topoText(t);
   if (verbose) {
     for (auto& g : l2) printf("  L2 #%d cpus %s L3 %d\n", g.cacheId, vecText(g.cpus).c_str(), t.l3[g.cacheId]);
     for (auto& g : out) printf("  out group %s mask %s\n", vecText(g.cpus).c_str(), bitsToText(bitsOf(g.affinityMask)).c_str());
   }
-  // cpu -> L2 block, cpu -> L3 label
-  std::map<int32_t, int> cpuL2;
+  auto bad = [&](const char* cat, const std::string& what) { // strings are only built on failure
+    std::string replay = topoText(t);
+    c.fail(cat, replay + ": " + what, replay);
+  };
+  auto indexOfCpu = [&](int32_t cpu) { // position 0..n-1 of a cpu id in the topology, -1 if foreign
+    for (int i = 0; i < t.n; i++)
+      if (kIdMap[t.idmap][i] == cpu) return i;
+    return -1;
+  };
   size_t largestL2 = 0;
-  for (int g = 0; g < k; g++) {
-    largestL2 = std::max(largestL2, l2[(size_t)g].cpus.size());
-    for (int32_t cpu : l2[(size_t)g].cpus) cpuL2[cpu] = g;
-  }
+  for (int g = 0; g < k; g++) largestL2 = std::max(largestL2, l2[(size_t)g].cpus.size());
   // clause 1: the output groups partition the CPUs of the L2 groups (non-empty blocks, every CPU exactly once, nothing else)
-  std::map<int32_t, int> seenIn;
+  int seenIn[8]; // per cpu position: output group index, -1 = not in the output
+  for (int i = 0; i < 8; i++) seenIn[i] = -1;
   for (size_t gi = 0; gi < out.size(); gi++) {
-    if (out[gi].cpus.empty()) c.fail("group-partition", replay + ": output group " + std::to_string(gi) + " is empty", replay);
+    if (out[gi].cpus.empty()) bad("group-partition", "output group " + std::to_string(gi) + " is empty");
     for (int32_t cpu : out[gi].cpus) {
-      if (!cpuL2.count(cpu)) c.fail("group-partition", replay + seq::fmt(": output contains cpu %d that is in no L2 group", cpu), replay);
-      if (seenIn.count(cpu)) c.fail("group-partition", replay + seq::fmt(": cpu %d appears twice in the output", cpu), replay);
-      seenIn[cpu] = (int)gi;
+      int i = indexOfCpu(cpu);
+      if (i < 0) {
+        bad("group-partition", seq::fmt("output contains cpu %d that is in no L2 group", cpu));
+        continue;
+      }
+      if (seenIn[i] >= 0) bad("group-partition", seq::fmt("cpu %d appears twice in the output", cpu));
+      seenIn[i] = (int)gi;
     }
     // the group's second representation (affinityMask) must denote the same CPUs
     Bits mb = bitsOf(out[gi].affinityMask), eb;
     for (int32_t cpu : out[gi].cpus)
       if (cpu >= 0 && cpu < kCap) eb.set((size_t)cpu);
     if (mb != eb || !checkOutside(out[gi].affinityMask, mb).empty())
-      c.fail("group-mask", replay + ": group " + vecText(out[gi].cpus) + " has affinityMask " + bitsToText(mb), replay);
+      bad("group-mask", "group " + vecText(out[gi].cpus) + " has affinityMask " + bitsToText(mb));
   }
-  for (auto& kv : cpuL2)
-    if (!seenIn.count(kv.first)) c.fail("group-partition", replay + seq::fmt(": cpu %d of L2 group %d is in no output group", kv.first, kv.second), replay);
+  for (int i = 0; i < t.n; i++)
+    if (seenIn[i] < 0) bad("group-partition", seq::fmt("cpu %d of L2 group %d is in no output group", kIdMap[t.idmap][i], t.rgs[i]));
   // clause 2: an L2 group is never split
   for (int g = 0; g < k; g++) {
     int where = -2;
-    for (int32_t cpu : l2[(size_t)g].cpus) {
-      int w = seenIn.count(cpu) ? seenIn[cpu] : -1;
-      if (where == -2) where = w;
-      else if (w != where) c.fail("group-split", replay + ": L2 group " + vecText(l2[(size_t)g].cpus) + " is split across output groups", replay);
+    for (int i = 0; i < t.n; i++) {
+      if (t.rgs[i] != g) continue;
+      if (where == -2) where = seenIn[i];
+      else if (seenIn[i] != where) bad("group-split", "L2 group " + vecText(l2[(size_t)g].cpus) + " is split across output groups");
     }
   }
   // clause 3: never two different known L3 groups in one output group
   for (auto& g : out) {
     int known = -1;
     for (int32_t cpu : g.cpus) {
-      if (!cpuL2.count(cpu)) continue;
-      int lab = t.l3[cpuL2[cpu]];
+      int i = indexOfCpu(cpu);
+      if (i < 0) continue;
+      int lab = t.l3[t.rgs[i]];
       if (lab < 0) continue;
-      if (known >= 0 && lab != known) c.fail("group-l3mix", replay + ": output group " + vecText(g.cpus) + seq::fmt(" mixes L3 #%d and L3 #%d", known, lab), replay);
+      if (known >= 0 && lab != known) bad("group-l3mix", "output group " + vecText(g.cpus) + seq::fmt(" mixes L3 #%d and L3 #%d", known, lab));
       known = lab;
     }
   }
   // clause 4: size bound
   size_t bound = std::max<size_t>((size_t)std::max(t.maxg, 0), largestL2);
   for (auto& g : out)
-    if (g.cpus.size() > bound) c.fail("group-size", replay + ": output group " + vecText(g.cpus) + seq::fmt(" has %zu cpus > max(maxGroupSize=%d, largest L2=%zu)", g.cpus.size(), t.maxg, largestL2), replay);
-  if (k >= 2) c.hashes.push_back(hashStr(0xC1, replay));
+    if (g.cpus.size() > bound) bad("group-size", "output group " + vecText(g.cpus) + seq::fmt(" has %zu cpus > max(maxGroupSize=%d, largest L2=%zu)", g.cpus.size(), t.maxg, largestL2));
+  if (k >= 2) {
+    uint64_t h = seq::mix(seq::mix(seq::mix(0xC1, (uint64_t)t.idmap), (uint64_t)t.n), (uint64_t)t.maxg);
+    for (int i = 0; i < t.n; i++) h = seq::mix(h, (uint64_t)t.rgs[i]);
+    for (int g = 0; g < k; g++) h = seq::mix(h, (uint64_t)(t.l3[g] + 1) + 16);
+    c.hashes.push_back(h);
+  }
 }
 static void enumPartitions(Topo& t, int i, int used, Chunk& c) {
   if (i == t.n) {
@@ -543,7 +586,7 @@ static void grouping(int maxN, int maxM) {
     int idmap, n, maxg;
   };
   std::vector<Job> jobs;
-  for (int n = maxN; n >= 0; n--) // big jobs first for load balance; merge order is still the job order
+  for (int n = 0; n <= maxN; n++) // smallest topology first, so the first reported counterexample is a smallest one
     for (int idmap = 0; idmap < 2; idmap++)
       for (int m = 1; m <= maxM; m++) jobs.push_back({idmap, n, m});
   runChunks(jobs.size(), [&](size_t i, Chunk& c) {
@@ -644,7 +687,7 @@ int main(int argc, char** argv) {
   if (replayFile) return replay(replayFile);
 
   bool thorough = tier == "thorough";
-  int D = thorough ? 5 : 4, U = thorough ? 3 : 2, L = thorough ? 7 : 6, N = thorough ? 7 : 6, M = thorough ? 8 : 7;
+  int D = thorough ? 6 : 4, U = thorough ? 3 : 2, L = thorough ? 7 : 6, N = thorough ? 7 : 6, M = thorough ? 8 : 7;
   report.name = "c43_cpuset";
   report.rule =
       "algebra: (canonical state, op) pairs of the merged search whose op touches at least one id in [0,1024) (the unmerged cross-check run adds "
